@@ -148,7 +148,7 @@ class ParticleBWRCoupling(Particle):
         if self.bw_l is None:
             decay = self.decay[0]
             self.bw_l = min(decay.get_l_list())
-        return BWR_coupling_dom(m, m0, g0, self.bw_l, m1, m2)
+        return BWR_coupling_dom(m, m0, g0, self.bw_l, m1, m2, d=self.d)
 
 
 @regist_particle("BWR_normal")
